@@ -612,6 +612,103 @@ fn int_case(rng: &mut Rng, table: &Table, st: &mut Stats) {
     }
 }
 
+/// Integer-typed points on expressions with elementary functions.  Whether a function accepts
+/// an integer argument is the value type's business; but wherever the expression itself
+/// evaluates to the number the all-float reading gives, its derivative must be the derivative of
+/// that function there.  (Division-free, literal integer exponents: the typed pitfalls of K1
+/// stay out.)
+fn fpoly(rng: &mut Rng, table: &Table, depth: usize) -> Tree {
+    let idx = |n: &str| table.iter().position(|o| o.name == n).unwrap();
+    if depth == 0 || rng.chance(1, 4) {
+        return match rng.below(8) {
+            0..=4 => Tree::var(["x", "y"][rng.below(2)]),
+            5..=6 => Tree::lit(["1", "2", "3"][rng.below(3)]),
+            _ => Tree::lit(["0.5", "2.0", "1.5"][rng.below(3)]),
+        };
+    }
+    match rng.below(10) {
+        0..=2 => Tree::un(idx(FUNS[rng.below(8)]), fpoly(rng, table, depth - 1)),
+        3 => Tree::un(idx("-"), fpoly(rng, table, depth - 1)),
+        4 => Tree::bin(idx("^"), fpoly(rng, table, depth - 1), Tree::lit(["2", "3"][rng.below(2)])),
+        _ => Tree::bin(idx(["+", "-", "*"][rng.below(3)]), fpoly(rng, table, depth - 1), fpoly(rng, table, depth - 1)),
+    }
+}
+
+fn int_fun_case(rng: &mut Rng, table: &Table, st: &mut Stats) {
+    let idx = |n: &str| table.iter().position(|o| o.name == n).unwrap();
+    let mut tree = fpoly(rng, table, 3);
+    if rng.chance(1, 3) {
+        let cond = Tree::bin(idx([">", "<"][rng.below(2)]), Tree::var(["x", "y"][rng.below(2)]), Tree::lit(["0", "1", "2"][rng.below(3)]));
+        let other = fpoly(rng, table, 2);
+        tree = Tree::bin(idx("else"), Tree::bin(idx("if"), tree, cond), other);
+    }
+    let vars = tree.vars();
+    if vars.is_empty() {
+        return;
+    }
+    let text = render(&tree, table, rng, &RenderCfg::plain());
+    let wrt = rng.below(vars.len());
+    st.bump("cases");
+    st.bump("integer_point_function_cases");
+    st.class(("intfun", tree.shape_key(table)));
+    let r = catch(|| -> Result<(exmex::FlatExVal<i32, f64>, exmex::FlatExVal<i32, f64>), String> {
+        let e = |x: exmex::ExError| x.msg().to_string();
+        let f = exmex::parse_val::<i32, f64>(&text).map_err(e)?;
+        let d = if rng.chance(1, 2) { f.clone().partial(wrt).map_err(e)? } else { exmex::FlatExVal::<i32, f64>::from_deepex(f.clone().to_deepex().map_err(e)?.partial(wrt).map_err(e)?).map_err(e)? };
+        Ok((f, d))
+    });
+    let (f, d) = match r {
+        Ok(Ok(x)) => x,
+        Ok(Err(m)) => {
+            if !m.contains("both zero") {
+                st.violation(format!("intfun-error|{text}"), text.len(), json!({"kind": "val-derivative-error", "text": text, "wrt": vars[wrt], "error": m}));
+            }
+            return;
+        }
+        Err(m) => {
+            st.violation(format!("intfun-panic|{text}"), text.len(), json!({"kind": "val-derivative-panic", "text": text, "wrt": vars[wrt], "panic": m}));
+            return;
+        }
+    };
+    for _ in 0..5 {
+        let p: Vec<i32> = (0..vars.len()).map(|_| rng.range(0, 9) as i32 - 3).collect();
+        let vals: Vec<Dual<f64>> = p.iter().enumerate().map(|(i, x)| Dual::var(*x as f64, i == wrt)).collect();
+        let mut ev = Ev { table, vars: &vars, vals: &vals, maxmag: 0.0, cond_true: 0, cond_false: 0, known_class: false };
+        let want = match ev.eval(&tree) {
+            TV::F(d) => d,
+            TV::I(v) => Dual::c(v as f64),
+            _ => continue,
+        };
+        if ev.maxmag > 1e6 {
+            continue;
+        }
+        let ivals: Vec<Val<i32, f64>> = p.iter().map(|x| Val::Int(*x)).collect();
+        // does exmex evaluate the expression itself to that number at the integer point?
+        let fv = catch(|| f.eval(&ivals)).ok().and_then(|r| r.ok()).and_then(|v| to_f(&v));
+        match fv {
+            Some(v) if close(v, want.v, ev.maxmag, 1e-9) => {}
+            _ => {
+                st.bump("integer_points_where_the_expression_itself_is_no_number_not_judged");
+                continue;
+            }
+        }
+        st.bump("integer_points_with_functions_judged");
+        let got = catch(|| d.eval(&ivals));
+        let gotf = match &got {
+            Ok(Ok(v)) => to_f(v),
+            _ => None,
+        };
+        if !gotf.map(|g| close(g, want.d, ev.maxmag, 1e-9)).unwrap_or(false) {
+            st.violation(
+                format!("intfun-value|{text}|d{}", vars[wrt]),
+                text.len(),
+                json!({"kind": "val-derivative-value-at-integer-point", "text": text, "wrt": vars[wrt], "variables": vars, "point": p, "value_of_the_expression": fv, "got": format!("{got:?}"), "derivative_of_the_selected_branch": want.d, "derivative_text": d.unparse()}),
+            );
+            return;
+        }
+    }
+}
+
 fn known_catalogue(st: &mut Stats) {
     for (text, wrt, at, truth) in KNOWN_WITNESSES {
         let r = catch(|| exmex::parse_val::<i32, f64>(text).and_then(|e| e.partial(*wrt)).and_then(|d| d.eval(&[Val::Float(*at)])));
@@ -639,7 +736,9 @@ pub fn run(ctx: &Ctx) -> i32 {
         }
         let quota = share(n, w, ctx.threads);
         for i in 0..quota {
-            if i % 8 == 3 {
+            if i % 8 == 6 {
+                int_fun_case(rng, &table, st);
+            } else if i % 8 == 3 {
                 int_case(rng, &table, st);
             } else {
                 case(rng, &table, st);
@@ -647,10 +746,11 @@ pub fn run(ctx: &Ctx) -> i32 {
         }
     });
     let report = Report::new(
-        "piecewise expressions `f if cond else g` (nesting 0..3, arithmetic and elementary functions around and inside, integer and float literals mixed, comparison conditions on the variables) rendered from reference trees, differentiated through parse_val(..).partial(i) and through DeepEx, evaluated at float points; branches that are parenthesis-free chains of 18..40 operands parsed directly as deep expressions; piecewise integer polynomials at integer-typed points (exact reference). Oracle: a typed dual-number evaluator that follows the documented typing (integer with integer stays integer incl. truncating division, integer meets float is promoted, comparisons give booleans, `if`/`else` select a branch) so that the reference derivative is the derivative of the branch selected at that point; 1e-9 relative tolerance at points 0.05 away from every singularity and branch boundary. Conditions are observed on both sides. The known-finding class K1 (quotient with an integer-typed constant divisor under a variable numerator) is excluded from the random generator by predicate and run as a fixed witness catalogue. distinct_nontrivial = distinct tree classes.",
+        "piecewise expressions `f if cond else g` (nesting 0..3, arithmetic and elementary functions around and inside, integer and float literals mixed, comparison conditions on the variables) rendered from reference trees, differentiated through parse_val(..).partial(i) and through DeepEx, evaluated at float points; branches that are parenthesis-free chains of 18..40 operands parsed directly as deep expressions; piecewise integer polynomials at integer-typed points (exact reference); division-free expressions with elementary functions at integer-typed points, judged wherever the expression itself evaluates to the number of the all-float reading. Oracle: a typed dual-number evaluator that follows the documented typing (integer with integer stays integer incl. truncating division, integer meets float is promoted, comparisons give booleans, `if`/`else` select a branch) so that the reference derivative is the derivative of the branch selected at that point; 1e-9 relative tolerance at points 0.05 away from every singularity and branch boundary. Conditions are observed on both sides. The known-finding class K1 (quotient with an integer-typed constant divisor under a variable numerator) is excluded from the random generator by predicate and run as a fixed witness catalogue. distinct_nontrivial = distinct tree classes.",
     )
     .assume("in the general family variables are bound to Float values (an Int-valued variable would make x/2 a truncating division); integer-typed points are used on the division-free polynomial family over Val<i64, f64>, where everything is exact")
     .require("integer_points_judged", 5000)
+    .require("integer_points_with_functions_judged", 2000)
     .require("points_judged_long_single_level_branch_deep_parse", 1000)
     .require("points_judged", 20000)
     .require("cases_judged_on_both_sides_of_a_branch", 1000)
